@@ -432,6 +432,6 @@ def main(chk: Check) -> None:
     prog = st.fixed_dictionaries(
         {"spec": programs.program_specs(dense_logs=True, early_exit=True, max_methods=2, max_calls=3), "cfg": st.integers(0, len(CFGS) - 1)}
     )
-    chk.explore("programs", prog, run_program, quick=400, thorough=8000)
-    chk.explore("ordering", prog, run_ordering, quick=200, thorough=4000)
-    chk.explore("peer", peer_cases, run_peer, quick=600, thorough=12000)
+    chk.explore("programs", prog, run_program, quick=800, thorough=8000)
+    chk.explore("ordering", prog, run_ordering, quick=400, thorough=4000)
+    chk.explore("peer", peer_cases, run_peer, quick=1200, thorough=12000)
